@@ -32,6 +32,13 @@ def gen_cases(seed, tier):
             if j % 2:
                 ops.append(("n", "mem", "g:%d:%d:r" % (rng.randint(0, 2000), rng.randint(1, 999))))
         cases.append(dict(id="slow%d_%d" % (w, len(cases)), comp="zstd:1", dedup=0, delays=0, workers=w, slow=60, ops=ops))
+    # reversed completion: with w >= 3 workers the clusters are held back the longer the earlier they were closed, so
+    # that they reach the writer in decreasing index order (every permutation of a window of w clusters is an admissible
+    # schedule; this one is the furthest from the order of insertion)
+    for w in ([3, 5] if tier == "quick" else [3, 3, 4, 5, 7, 11]):
+        ops = [("y", "mem", "g:2200000:%d:t" % rng.randint(1, 999)) for _ in range(w + 3)]
+        ops.insert(2, ("n", "mem", "g:700:%d:r" % rng.randint(1, 999)))
+        cases.append(dict(id="rev%d_%d" % (w, len(cases)), comp="zstd:1", dedup=0, delays=0, workers=w, rev=15, ops=ops))
     return cases
 
 
